@@ -169,6 +169,11 @@ def templates(uni: qgen.Universe, rng: random.Random) -> List[T]:
         add(f"ds.Select(lambda e: {C}).Where(lambda js: js.Count() > 0 and js.First().pt() > {th}).Select(lambda js: js.First().eta())", ["first", "and", "guard", "shared"])
         add(f"ds.Select(lambda e: {C}.First()).Select(lambda f: f.pt() if f.eta() > 0 else f.phi())", ["first", "ifexp", "shared"])
         add(f"ds.Select(lambda e: ({C}.First(), {O}.Count())).Select(lambda t: t[0].pt() if t[1] > 0 else -1.0)", ["first", "ifexp", "shared", "first_bound_then_guarded"], u2)
+        # two First() over one already-looped sequence combined in one expression; the components of a tuple-valued First
+        add(f"ds.Select(lambda e: {C}).Select(lambda js: js.First().pt() - js.First().eta())", ["first", "shared", "two_firsts_one_loop"])
+        add(f"ds.Select(lambda e: {C}.Where(lambda j: j.pt() > {th})).Select(lambda js: (js.First().pt() + js.First().eta(), js.Count()))", ["first", "shared", "two_firsts_one_loop", "where"])
+        add(f"ds.Select(lambda e: {C}.Where(lambda j: j.pt() > {th}).Select(lambda j: (j.pt(), j.eta())).First()).Select(lambda t: t[0] + t[1])", ["first", "shared", "two_firsts_one_loop", "where"])
+        add(f"ds.Select(lambda e: {C}.Select(lambda j: (j.pt(), j.eta())).First()).Select(lambda t: (t[0], t[1]))", ["first", "shared", "two_firsts_one_loop"])
         # a First node used inside a guard and again outside it (rep cache)
         add(f"ds.Select(lambda e: ({C}, {C}.First())).Select(lambda t: (t[1].pt() if t[0].Count() > 0 else -1.0) + t[1].eta())", ["first", "ifexp", "shared", "first_reused_outside_guard"])
         add(f"ds.Select(lambda e: ({C}, {C}.First())).Select(lambda t: (t[1].pt() if t[0].Count() > 0 else -1.0, t[1].eta()))", ["first", "ifexp", "shared", "first_reused_outside_guard"])
